@@ -25,6 +25,9 @@ PROP = 'C08'
 
 # ---- datasets ---------------------------------------------------------------------------------
 
+ATTRS = {'units': 'degrees C', 'long_name': 'temperature', 'source': 'model X run 7', 'zlib': 'not a flag', 'dtype': 'label'}
+
+
 def grid_dataset(ctx, conv, shape, as_coords=True):
     from emsarray.conventions.grid import CFGrid1D, CFGrid2D
     from emsarray.conventions.shoc import ShocSimple, ShocStandard
@@ -53,7 +56,8 @@ def grid_dataset(ctx, conv, shape, as_coords=True):
         return ds, ShocStandard(ds), kinds
     yd, xd = ('j', 'i') if conv == 'shoc_simple' else ('y', 'x')
     data = {
-        'temp': (('t', yd, xd), S(ctx, 'temp', (2, ny, nx), 1000)),
+        # (attribute names that xarray also uses as encoding keys of variables read from files)
+        'temp': (('t', yd, xd), S(ctx, 'temp', (2, ny, nx), 1000), dict(ATTRS)),
         'botz': ((xd, yd), S(ctx, 'botz', (nx, ny), 2000)),
         'mid': ((yd, 't', xd), S(ctx, 'mid', (ny, 2, nx), 3000)),
         'cellid': ((yd, xd), clipcommon.ids((ny, nx))),
@@ -96,7 +100,7 @@ def mesh_dataset(ctx, mesh, supply, start_index, fill, transposed=False, fill_va
     ne = len(builders.mesh_edges(faces)[0])
     S = clipcommon.sym_values
     data = {
-        'v_face': (('t', 'nface'), S(ctx, 'vface', (2, len(faces)), 1000)),
+        'v_face': (('t', 'nface'), S(ctx, 'vface', (2, len(faces)), 1000), dict(ATTRS)),
         'w_face': (('nface', 't'), S(ctx, 'wface', (len(faces), 2), 1500)),
         'v_node': (('nnode',), S(ctx, 'vnode', (len(nodes),), 2000)),
         'v_edge': (('t', 'nedge'), S(ctx, 'vedge', (2, ne), 3000)),
@@ -237,6 +241,8 @@ def check_grid_values(ctx, ds, out, kinds, masks):
     ctx.check(bool(numpy.array_equal(numpy.asarray(out['clock'].values, dtype=float), [5.0, 6.0])) and out['clock'].attrs.get('long_name') == 'clock',
               'variables without spatial dimensions pass through unchanged')
     ctx.check(float(out['scalar'].values) == 7.5, 'scalar variables pass through unchanged')
+    if 'temp' in ds.data_vars:
+        ctx.check(dict(out['temp'].attrs) == dict(ds['temp'].attrs), 'variable attributes pass through unchanged, whatever they are called')
     ctx.check(out.attrs.get('title') == 'clip me' and all(out.attrs.get(k) == v for k, v in ds.attrs.items()), 'global attributes pass through unchanged')
     for name in ds.data_vars:
         ctx.check(name in out.variables, f'variable {name} survives clipping')
@@ -311,6 +317,7 @@ def check_mesh_values(ctx, ds, out, info, kept_faces):
         ctx.check(And(*oks), f'{name}: every selected element keeps every one of its values')
     ctx.check(bool(numpy.array_equal(numpy.asarray(out['clock'].values, dtype=float), [5.0, 6.0])), 'variables without mesh dimensions pass through unchanged')
     ctx.check(out.attrs.get('title') == 'clip me', 'global attributes pass through unchanged')
+    ctx.check(dict(out['v_face'].attrs) == dict(ds['v_face'].attrs), 'variable attributes pass through unchanged, whatever they are called')
     ctx.check([n for n in out.data_vars if n in ds.data_vars] == [n for n in ds.data_vars if n in out.data_vars], 'variable order preserved')
 
 
